@@ -4,9 +4,11 @@
 #include <new>
 #include "symx.h"
 #include "io_model.h"
+extern "C" bool __CPROVER_same_object(const void *, const void *);
+extern "C" size_t __CPROVER_POINTER_OFFSET(const void *);
 
 #ifndef IO_CAP
-#define IO_CAP 1024
+#define IO_CAP 512
 #endif
 #ifndef IO_MAXREC
 #define IO_MAXREC 12
@@ -22,8 +24,9 @@
 
 #ifndef SYMX_NATIVE
 /* =============================================================== model side (CBMC) */
-struct PropEntry { char name[IO_NAMELEN]; int kind; double d; int64_t i; };
-struct Record { char title[32]; int n; PropEntry e[IO_MAXPROP]; };
+/* names and titles are views of the string literals the library passes in (static lifetime): nothing is copied */
+struct PropEntry { const char *name; int kind; double d; int64_t i; };
+struct Record { const char *title; int n; PropEntry e[IO_MAXPROP]; };
 
 static double roundtrip_fmt(double x) {
 #ifdef IO_DOUBLE_EXACT
@@ -38,37 +41,63 @@ static double roundtrip_fmt(double x) {
 #endif
 }
 
+/* std::string as the library code sees it under this model: {pointer, length, 16 bytes} (libstdc++ layout); the seven
+   std::string entry points tfhe_io.cpp uses (constructor from a literal, destructor, ==, !=, size, data) are replaced by the
+   stub_string_* functions below, which keep a *view* of the literal instead of copying it */
+/* accessed as two scalars at offsets 0 and 8 (not through a look-alike struct: a type-punned struct access makes CBMC route the
+   pointer through byte_extract, after which no character comparison is constant any more and every dimension read back from a
+   text section becomes a symbolic allocation size) */
+static inline const char *&str_p(const void *s) { return *(const char **) s; }
+static inline size_t &str_len(const void *s) { return *((size_t *) s + 1); }
+static inline const char *chars(const std::string &s) { return str_p(&s); }
+/* bounded comparison of two names / titles (all shorter than IO_NAMELEN): CBMC's strcmp model unwinds to the global bound on every call */
+static bool streq(const char *a, const char *b) {
+    for (int k = 0; k < IO_NAMELEN; k++) {
+        if (a[k] != b[k]) return false;
+        if (!a[k]) return true;
+    }
+    return true;
+}
+extern "C" {
+void stub_string_ctor(void *self, const char *s, const void *alloc) { str_p(self) = s; size_t n = 0; while (s[n]) n++; str_len(self) = n; }
+void stub_string_dtor(void *self) {}
+bool stub_string_eq(const void *a, const void *b) {
+    if (str_len(a) != str_len(b)) return false;
+    const char *x = str_p(a), *y = str_p(b);
+    for (size_t i = 0; i < str_len(a); i++) if (x[i] != y[i]) return false;
+    return true;
+}
+bool stub_string_ne(const void *a, const void *b) { return !stub_string_eq(a, b); }
+size_t stub_string_size(const void *a) { return str_len(a); }
+const char *stub_string_data(const void *a) { return str_p(a); }
+}
+struct TitleStore { const char *p; size_t len; size_t pad[2]; };
+
 class ModelProps : public TextModeProperties {
 public:
-    std::string title;
+    TitleStore title;
     Record r;
     bool null_object;
-    ModelProps() : null_object(false) { r.n = 0; r.title[0] = 0; }
-    virtual const std::string &getTypeTitle() const { if (null_object) abort(); return title; }
+    ModelProps() : null_object(false) { r.n = 0; r.title = ""; title.p = r.title; title.len = 0; }
+    void retitle() { title.p = r.title; size_t n = 0; while (r.title[n]) n++; title.len = n; }
+    virtual const std::string &getTypeTitle() const { if (null_object) abort(); return *(const std::string *) &title; }
     virtual void setTypeTitle(const std::string &t) {
-        const char *s = t.c_str();
-        int k = 0;
-        for (; k < 31 && s[k]; k++) r.title[k] = s[k];
-        r.title[k] = 0;
-        title.~basic_string();
-        new (&title) std::string(r.title);
+        r.title = chars(t);
+        retitle();
     }
     int find(const std::string &name) const {
-        const char *s = name.c_str();
-        for (int i = 0; i < r.n; i++) if (strcmp(s, r.e[i].name) == 0) return i;
+        const char *s = chars(name);
+        for (int i = 0; i < r.n; i++) if (streq(s, r.e[i].name)) return i;
         return -1;
     }
     int slot(const std::string &name) {
         int i = find(name);
         if (i >= 0) return i;
         if (r.n >= IO_MAXPROP) abort();
-        const char *s = name.c_str();
-        int k = 0;
-        for (; k < IO_NAMELEN - 1 && s[k]; k++) r.e[r.n].name[k] = s[k];
-        r.e[r.n].name[k] = 0;
+        r.e[r.n].name = chars(name);
         return r.n++;
     }
-    virtual const std::string &getProperty(const std::string &name) const { abort(); return title; }
+    virtual const std::string &getProperty(const std::string &name) const { abort(); return *(const std::string *) &title; }
     virtual double getProperty_double(const std::string &name) const {
         if (null_object) abort();
         int i = find(name);
@@ -95,9 +124,11 @@ struct IoBuf {
     Record rec[IO_MAXREC];
     size_t binbytes;
     /* reader state */
-    size_t pos, limit;
+    size_t pos, limit;      /* limit: exact cut (may be symbolic) */
+    size_t cut_lo;          /* concrete lower bound of the cut: everything below is available for sure */
     bool cxx, failed;
     const uint8_t *watch_q; size_t watch_m; bool watch_hit;
+    class MemOstream *w; class MemIstream *r;
 };
 
 class MemOstream : public Ostream {
@@ -110,10 +141,10 @@ public:
         memcpy(b->data + b->len, data, bytes);
         b->len += bytes;
         b->binbytes += bytes;
-        if (b->watch_q) {
-            const uint8_t *p = (const uint8_t *) data;
-            /* same-object overlap test without comparing unrelated pointers */
-            for (size_t k = 0; k < b->watch_m; k++) if (p <= b->watch_q + k && b->watch_q + k < p + bytes && __CPROVER_same_object(p, b->watch_q)) b->watch_hit = true;
+        if (b->watch_q && __CPROVER_same_object(data, b->watch_q)) {
+            /* overlap of [data, data+bytes) with the watched range, by offsets inside the one object both point into */
+            size_t po = __CPROVER_POINTER_OFFSET(data), qo = __CPROVER_POINTER_OFFSET(b->watch_q);
+            if (po < qo + b->watch_m && qo < po + bytes) b->watch_hit = true;
         }
     }
     virtual ~MemOstream() {}
@@ -125,13 +156,20 @@ public:
     virtual void getLine(std::string &reps) const { abort(); }
     virtual void fread(void *data, size_t bytes) const {
         if (b->failed) return;                                            /* a failed std::istream ignores further reads */
+        if (b->pos + bytes <= b->cut_lo) {                                /* entirely before the (possibly symbolic) cut: concrete */
+            memcpy(data, b->data + b->pos, bytes);
+            b->pos += bytes;
+            return;
+        }
         size_t avail = b->limit > b->pos ? b->limit - b->pos : 0;
         /* a read that would run into a text record is a short read too */
         if (avail < bytes) {
             if (!b->cxx) abort();                                         /* CIstream::fread: short read -> abort() */
-            memcpy(data, b->data + b->pos, avail);                        /* istream::read stores what it got ... */
-            b->pos += avail;
-            b->failed = true;                                             /* ... and sets failbit|eofbit */
+            /* istream::read stores the `avail` characters it got and sets failbit|eofbit. The destination is left as it was
+               (for a fresh local that is an arbitrary value under CBMC): the property is about the return state, and a
+               symbolic-length copy costs a timeout on every long binary section */
+            b->pos = b->limit;
+            b->failed = true;
             return;
         }
         memcpy(data, b->data + b->pos, bytes);
@@ -141,20 +179,38 @@ public:
     virtual ~MemIstream() {}
 };
 
-static MemOstream *g_w[4]; static MemIstream *g_r[4]; static IoBuf *g_b[4]; static int g_nb = 0;
-
 IoBuf *io_new() {
     IoBuf *b = (IoBuf *) malloc(sizeof(IoBuf));
     b->len = 0; b->nrec = 0; b->binbytes = 0; b->pos = 0; b->limit = 0; b->cxx = true; b->failed = false;
     b->watch_q = 0; b->watch_m = 0; b->watch_hit = false;
-    if (g_nb >= 4) abort();
-    g_b[g_nb] = b; g_w[g_nb] = new MemOstream(b); g_r[g_nb] = new MemIstream(b); g_nb++;
+    b->w = new MemOstream(b); b->r = new MemIstream(b);
     return b;
 }
 void io_delete(IoBuf *b) {}
-static int idx(IoBuf *b) { for (int i = 0; i < g_nb; i++) if (g_b[i] == b) return i; abort(); return 0; }
-const Ostream &io_writer(IoBuf *b) { return *g_w[idx(b)]; }
-const Istream &io_reader(IoBuf *b, size_t limit, bool cxx) { b->pos = 0; b->limit = limit < b->len ? limit : b->len; b->cxx = cxx; b->failed = false; return *g_r[idx(b)]; }
+const Ostream &io_writer(IoBuf *b) { return *b->w; }
+const Istream &io_reader(IoBuf *b, size_t limit, bool cxx) { b->pos = 0; b->limit = limit < b->len ? limit : b->len; b->cut_lo = b->limit; b->cxx = cxx; b->failed = false; return *b->r; }
+/* region table computed from rec_off[] (concrete values) */
+static int region_bounds(IoBuf *b, int R, size_t *lo, size_t *hi, bool *text) {
+    int n = 0;
+    size_t at = 0;
+    for (int k = 0; k <= b->nrec; k++) {
+        size_t next = k < b->nrec ? b->rec_off[k] : b->len;
+        if (next > at) { if (n == R) { *lo = at; *hi = next; *text = false; } n++; }          /* binary run before record k / at the end */
+        if (k < b->nrec) { if (n == R) { *lo = next; *hi = next + IO_REC_BYTES; *text = true; } n++; at = next + IO_REC_BYTES; }
+    }
+    return n;
+}
+int io_regions(IoBuf *b) { size_t lo = 0, hi = 0; bool t = false; return region_bounds(b, -1, &lo, &hi, &t); }
+bool io_region_is_text(IoBuf *b, int R) { size_t lo = 0, hi = 0; bool t = false; region_bounds(b, R, &lo, &hi, &t); return t; }
+const Istream &io_reader_region(IoBuf *b, int R, size_t d, bool cxx) {
+    size_t lo = 0, hi = 0; bool t = false;
+    region_bounds(b, R, &lo, &hi, &t);
+    b->pos = 0; b->cxx = cxx; b->failed = false;
+    b->cut_lo = lo;
+    if (t) b->limit = lo;                                /* a text section cut anywhere is a missing section (A3) */
+    else { size_t len = hi - lo; b->limit = lo + (d % len); }
+    return *b->r;
+}
 bool io_failed(IoBuf *b) { return b->failed; }
 size_t io_size(IoBuf *b) { return b->len; }
 size_t io_consumed(IoBuf *b) { return b->pos; }
@@ -163,9 +219,9 @@ int io_records(IoBuf *b) { return b->nrec; }
 void io_watch(IoBuf *b, const void *q, size_t m) { b->watch_q = (const uint8_t *) q; b->watch_m = m; b->watch_hit = false; }
 bool io_watch_hit(IoBuf *b) { return b->watch_hit; }
 static bool rec_equal(const Record *x, const Record *y) {
-    if (strcmp(x->title, y->title) != 0 || x->n != y->n) return false;
+    if (!streq(x->title, y->title) || x->n != y->n) return false;
     for (int i = 0; i < x->n; i++) {
-        if (strcmp(x->e[i].name, y->e[i].name) != 0 || x->e[i].kind != y->e[i].kind) return false;
+        if (!streq(x->e[i].name, y->e[i].name) || x->e[i].kind != y->e[i].kind) return false;
         if (x->e[i].kind == 1 ? !(x->e[i].d == y->e[i].d) : x->e[i].i != y->e[i].i) return false;
     }
     return true;
@@ -200,7 +256,7 @@ TextModeProperties *new_TextModeProperties_fromIstream(const Istream &F) {
     int r = -1;
     if (!b->failed)
         for (int k = 0; k < b->nrec; k++) if (r < 0 && b->rec_off[k] >= b->pos) r = k;
-    if (r < 0 || b->rec_off[r] + IO_REC_BYTES > b->limit) {
+    if (r < 0 || b->rec_off[r] + IO_REC_BYTES > b->cut_lo) {
         /* no complete text section before the end of input: the real function returns NULL and every caller
            dereferences it at once (a virtual call through a null object: the process dies) */
         b->pos = b->limit;
@@ -209,8 +265,7 @@ TextModeProperties *new_TextModeProperties_fromIstream(const Istream &F) {
         return res;
     }
     res->r = b->rec[r];
-    res->title.~basic_string();
-    new (&res->title) std::string(res->r.title);
+    res->retitle();
     b->pos = b->rec_off[r] + IO_REC_BYTES;
     return res;
 }
@@ -258,6 +313,30 @@ const Istream &io_reader(IoBuf *b, size_t limit, bool cxx) {
     if (!s.size()) { fgetc(b->f); }
     b->rc = new CIstream(b->f);
     return *b->rc;
+}
+static int nat_regions(const std::string &s, int R, size_t *lo, size_t *hi, bool *text) {
+    int n = 0; size_t at = 0;
+    while (at < s.size()) {
+        size_t bpos = s.find("-----BEGIN ", at);
+        size_t next = bpos == std::string::npos ? s.size() : bpos;
+        if (next > at) { if (n == R) { *lo = at; *hi = next; *text = false; } n++; }
+        if (bpos == std::string::npos) break;
+        size_t e = s.find("-----END ", bpos);
+        size_t eol = s.find('\n', e);
+        size_t end = eol == std::string::npos ? s.size() : eol + 1;
+        if (n == R) { *lo = bpos; *hi = end; *text = true; }
+        n++; at = end;
+    }
+    return n;
+}
+int io_regions(IoBuf *b) { size_t lo = 0, hi = 0; bool t = false; return nat_regions(b->out.str(), -1, &lo, &hi, &t); }
+bool io_region_is_text(IoBuf *b, int R) { size_t lo = 0, hi = 0; bool t = false; nat_regions(b->out.str(), R, &lo, &hi, &t); return t; }
+const Istream &io_reader_region(IoBuf *b, int R, size_t d, bool cxx) {
+    size_t lo = 0, hi = 0; bool t = false;
+    nat_regions(b->out.str(), R, &lo, &hi, &t);
+    size_t len = hi > lo ? hi - lo : 1;
+    /* inside a text section every byte offset is a real crash point: the symbolic d picks one */
+    return io_reader(b, lo + (d % len), cxx);
 }
 bool io_failed(IoBuf *b) { return b->cxx ? (b->in && !*b->in) : false; }
 size_t io_size(IoBuf *b) { return b->out.str().size(); }
